@@ -904,6 +904,7 @@ func (f *fnCtx) assign(x *ast.AssignStmt) {
 	switch r := x.Rhs[0].(type) {
 	case *ast.TypeAssertExpr:
 		// v, ok := path.(T)
+		f.bindIndexRoots(r.X)
 		p, args, ok := f.pathOf(r.X)
 		if !ok || args != nil || len(x.Lhs) != 2 {
 			trFail("type assertion %s", f.src(r))
